@@ -494,3 +494,45 @@ def drive_b(protocol: Any, stream: bytes, fills: list[int], sizehint: int, info:
     finally:
         consumer.clear()
     return acct.outputs
+
+
+# ----------------------------------------------------------------------------------------------
+# well-formed pickle opcode programs whose *execution* fails in assorted ways
+
+
+def st_pickle_ops():  # noqa: ANN201
+    """Pickle streams built from complete, well-formed opcodes (no globals, no persistent ids, no PUT with an explicit
+    index: nothing that can import, call user code or allocate) whose execution mostly fails *inside the unpickler's stack
+    machine*: TypeError (None called, None subscripted, unhashable key), AttributeError, IndexError (empty stack), KeyError /
+    UnpicklingError (memo miss), ... - exception classes a too narrow `except` in a one-shot deserializer lets through."""
+    from hypothesis import strategies as st
+
+    values = st.one_of(
+        st.sampled_from([b"N", b"]", b"}", b")", b"\x88", b"\x89", b"\x8f"]),
+        st.integers(0, 255).map(lambda i: b"K" + bytes([i])),
+        st.sampled_from([b"\x8c\x01a", b"C\x01x", b"G\x3f\xf0\x00\x00\x00\x00\x00\x00", b"\x8a\x01\x7f"]),
+    )
+    # statements respect the stack discipline (operands first), so that failures come from the operands' types rather than
+    # from stack underflow; a minority of free-form opcodes keeps underflow / mark errors in the mix
+    arity = {b"R": 2, b"s": 3, b"a": 2, b"b": 2, b"\x81": 2, b"\x92": 3, b"\x85": 1, b"\x86": 2, b"\x87": 3, b"0": 1, b"2": 1, b"\x94": 1}
+    marked = [b"t", b"l", b"d", b"u", b"e", b"\x90", b"\x91", b"1"]
+
+    def statement(op: bytes):  # noqa: ANN202
+        return st.lists(values, min_size=arity[op], max_size=arity[op]).map(lambda vs: b"".join(vs) + op)
+
+    def marked_statement(op: bytes):  # noqa: ANN202
+        # target object (for u / e / \x90), mark, items, opcode
+        return st.tuples(values, st.lists(values, max_size=4)).map(lambda t: t[0] + b"(" + b"".join(t[1]) + op)
+
+    stmt = st.one_of(
+        st.sampled_from(sorted(arity)).flatmap(statement),
+        st.sampled_from(sorted(arity)).flatmap(statement),
+        st.sampled_from(marked).flatmap(marked_statement),
+        st.integers(0, 3).map(lambda i: b"h" + bytes([i])),
+        st.sampled_from([b"R", b"s", b"a", b"b", b"0", b"(", b"t", b"u", b"e"]),
+        values,
+    )
+    body = st.lists(stmt, min_size=1, max_size=5).map(b"".join)
+    head = st.sampled_from([b"", b"\x80\x02", b"\x80\x04", b"\x80\x05"])
+    curated = st.sampled_from([b"N)R.", b"NNNs.", b"}]Ns.", b"N]a.", b"NNb.", b"N)\x81.", b"h\x07.", b"0.", b"(NNu.", b"K\x01K\x02e.", b"]K\x01\x90.", b"}}Ns."])
+    return st.one_of(curated, st.tuples(head, body).map(lambda t: t[0] + t[1] + b"."))
